@@ -12,7 +12,12 @@ CHANNEL_OPEN_FAILURE(administratively prohibited, same channel number), UNIMPLEM
 from pv import lib_authsrv as L
 
 PHASES = ["fresh", "after-service", "after-failure", "after-partial", "after-partial-publickey",
-          "after-partial-interactive", "after-partial-info-response", "after-key-probe", "interactive", "gss-exchange"]
+          "after-partial-interactive", "after-partial-info-response", "after-key-probe", "interactive", "gss-exchange",
+          # the GSS-API methods sent raw: server with enable_auth_gssapi() true / false, with / without a GSS kex context
+          "gss-keyex-no-context", "gss-keyex-no-context-partial", "gss-keyex-disabled", "gss-keyex-context-app-rejects",
+          "gss-keyex-context-bad-mic", "gss-with-mic-disabled", "gss-with-mic-bad-mechanism"]
+# phases that need a server whose key exchange left a GSS context (Transport(gss_kex=True) over the stub)
+NEEDS_CTX = {"gss-keyex-context-app-rejects", "gss-keyex-context-bad-mic"}
 
 
 def chan_id_of_open(payload):
@@ -56,6 +61,20 @@ def phase_prefix(gen, phase, sid):
     if phase == "interactive":
         payload = S(user, b"ssh-connection", b"keyboard-interactive", b"", b"")
         return [L.mk_step(gen, 50, payload, {"r_inter": ("query", "t", "i", [("Password: ", False)])})]
+    if phase.startswith("gss-keyex"):
+        env = {"gss_enabled": phase != "gss-keyex-disabled", "mic_ok": phase != "gss-keyex-context-bad-mic",
+               # what the stock ServerInterface does: trust gss_authenticated -> AUTH_SUCCESSFUL
+               "r_gsskeyex": {"gss-keyex-context-app-rejects": 2, "gss-keyex-no-context-partial": 1}.get(phase, 0),
+               "r_none": 2}
+        return [L.mk_step(gen, 5, S(b"ssh-userauth")),
+                L.mk_step(gen, 50, S(user, b"ssh-connection", b"gssapi-keyex", b"any-mic-bytes"), env,
+                          meta={"kind": "auth", "method": b"gssapi-keyex"})]
+    if phase == "gss-with-mic-disabled":
+        return [L.mk_step(gen, 50, S(user, b"ssh-connection", b"gssapi-with-mic", 1, b"OID"),
+                          {"gss_enabled": False, "r_none": 2})]
+    if phase == "gss-with-mic-bad-mechanism":
+        return [L.mk_step(gen, 50, S(user, b"ssh-connection", b"gssapi-with-mic", 1, b"OID"),
+                          {"gss_enabled": True, "mech_ok": False})]
     if phase == "gss-exchange":
         payload = S(user, b"ssh-connection", b"gssapi-with-mic", 1, b"OID")
         return [L.mk_step(gen, 50, payload, {"gss_enabled": True, "mech_ok": True})]
@@ -72,6 +91,9 @@ def oracle(ctx, tr):
     for i, (st, r) in enumerate(zip(tr["steps"], tr["real"])):
         p = st["ptype"]
         vs = L.verdicts(st, r)
+        if any(m == b"\x34" for m in L.sent_list(r)) and any(m[:1] == b"\x33" for m in L.sent_list(r)):
+            ctx.fail("failure-and-success-for-one-request", L.describe(tr, i),
+                     "sent %r" % [m.hex()[:20] for m in L.sent_list(r)])
         if any(m == b"\x34" for m in L.sent_list(r)) and not L.legitimately_granted(st, r):
             ctx.fail("userauth-success-without-the-applications-approval", L.describe(tr, i),
                      "USERAUTH_SUCCESS although the application's verdicts in this step were %r" % [(n, v) for n, _c, v in vs])
@@ -121,9 +143,10 @@ def oracle(ctx, tr):
 
 
 def run(ctx):
-    ctx.rule = ("(a) every type 80..100 x 10 phases (fresh, after service request, after a failed attempt, after a PARTIAL "
+    ctx.rule = ("(a) every type 80..100 x 17 phases (fresh, after service request, after a failed attempt, after a PARTIAL "
                 "success of each method kind - password, validly signed publickey, keyboard-interactive verdict, info "
-                "response - after a key probe, during keyboard-interactive, during GSS exchange) with structured or random payloads, followed "
+                "response - after a key probe, during keyboard-interactive, during GSS exchange, and after raw gssapi-keyex / "
+                "gssapi-with-mic requests against servers with enable_auth_gssapi true/false, with/without a GSS kex context) with structured or random payloads, followed "
                 "by a password attempt; (b) random sessions of 1-12 messages, 45% connection-layer. distinct = distinct "
                 "(message, outcome) sequences; non-trivial = a type 80..100 arrived while the server was alive and "
                 "unauthenticated")
@@ -138,7 +161,11 @@ def run(ctx):
     reps = 3 if ctx.thorough else 1
     for _ in range(reps):
         for phase in PHASES:
-            for p in range(80, 101):
+            types = list(range(80, 101))
+            if not ctx.thorough and phase.startswith("gss-") and phase != "gss-exchange":
+                # quick tier: the raw-GSS phases get the request types that reach the application plus a sample
+                types = sorted(set([80, 90, 94, 98] + rng.sample(range(80, 101), 4)))
+            for p in types:
                 gen = L.Gen(rng, "c15", tables)
 
                 def mk(sid, gen=gen, phase=phase, p=p):
@@ -154,7 +181,7 @@ def run(ctx):
                         s_["meta"]["phase"] = phase
                     return steps
 
-                makers.append((False, mk))
+                makers.append((phase in NEEDS_CTX, mk))
     makers += L.profile_makers(ctx, "c15", 300 if ctx.thorough else 60, tables)
     traces = L.run_sessions(ctx, "C15", makers)
     L.compare_traces(ctx, traces, "C15")
